@@ -219,5 +219,8 @@ def run(ck: Checker) -> None:
     ck.guard("R-LEG-PROPAGATE", lambda: r_leg_propagate(ck))
     ck.guard("R-LEG-LINK", lambda: r_leg_link(ck))
     ck.guard("R-LEG-DIGEST", lambda: r_leg_digest(ck))
+    from .c20 import r_legacy_presence, r_xpath_spell
+    ck.guard("R-LEG-XPATH-SPELL", lambda: r_xpath_spell(ck))
+    ck.guard("R-PRESENCE", lambda: r_legacy_presence(ck))
     ck.require_count("R-LEG-LINK", 8)
     ck.require_count("R-LEG-PROPAGATE", 3)
